@@ -207,6 +207,8 @@ def write_evidence(pid, ev):
 def shrink_op(group_exec, op, setup, pred):
     """Delta-debug the comma/space separated stream token of a `read`/`tlogr` op."""
     t = op.split(" ")
+    if t[0] == "swrite":
+        return shrink_list(t, 7, ";", pred)
     if t[0] not in ("read", "tlogr"):
         return op
     idx = 4 if t[0] == "read" else 2
@@ -258,6 +260,33 @@ def shrink_op(group_exec, op, setup, pred):
                 break
             n = min(n * 2, len(toks))
     return mk(toks)
+
+
+def shrink_list(t, idx, sep, pred):
+    """Delta-debug a sep-separated list token."""
+    items = t[idx].split(sep)
+
+    def mk(its):
+        u = list(t)
+        u[idx] = sep.join(its)
+        return " ".join(u)
+    n, budget = 2, 80
+    while len(items) >= 2 and budget > 0:
+        chunk = max(1, len(items) // n)
+        reduced = False
+        for i in range(0, len(items), chunk):
+            cand = items[:i] + items[i + chunk:]
+            budget -= 1
+            if cand and pred(mk(cand)):
+                items, n, reduced = cand, max(n - 1, 2), True
+                break
+            if budget <= 0:
+                break
+        if not reduced:
+            if chunk == 1:
+                break
+            n = min(n * 2, len(items))
+    return mk(items)
 
 
 def eval_ops(ops):
